@@ -243,7 +243,7 @@ func (sg *scenGen) genCall(slotsRead []int, slotWrite int, legacy bool) Call {
 			c.A = sg.anyBuf()
 		}
 		c.Slot = slotWrite
-		if sg.prop != "C04" && r.P(40) {
+		if sg.prop != "C04" && r.P(70) {
 			c.Corrupt = 1 + r.Intn(60) // a hand-assembled Patch (outside C04's stated domain)
 			sg.faults["hand_assembled_patch"]++
 		}
@@ -436,6 +436,34 @@ func GenConc(seed uint64, prop, target string) (*Scenario, map[string]int64) {
 			}
 		}
 		sg.sc.Tasks = append(sg.sc.Tasks, calls)
+	}
+	if r.P(30) {
+		// Large inputs (more than 64 KiB together), one of them malformed, in private buffers the
+		// caller overwrites as soon as the call has returned: work an implementation may hand to a
+		// helper must be finished (or abandoned) by then.
+		var sb strings.Builder
+		sb.WriteByte('[')
+		for i := 0; sb.Len() < 40000+r.Intn(40000); i++ {
+			if i > 0 {
+				sb.WriteByte(',')
+			}
+			fmt.Fprintf(&sb, `{"i":%d,"v":"%s"}`, i, strings.Repeat("y", r.Intn(30)))
+		}
+		sb.WriteByte(']')
+		big := sb.String()
+		good := sg.addBuf(big)
+		bad := sg.addBuf(big[:len(big)/2] + "}" + big[len(big)/2:])
+		bad0 := sg.addBuf("x" + big)
+		sg.sc.Cfg.Scribble = true
+		for t := range sg.sc.Tasks {
+			if t < 2 || r.Bool() {
+				sg.nextID++
+				c := Call{ID: sg.nextID, Fn: []int{FnEqual, FnEqual, FnCreateMergePatch, FnMergePatch}[r.Intn(4)], A: []int{bad, bad0, good}[r.Intn(3)], B: []int{good, good, bad}[r.Intn(3)], PrivA: true, PrivB: true}
+				c.Name = FnNames[c.Fn]
+				sg.sc.Tasks[t] = append(sg.sc.Tasks[t], c)
+			}
+		}
+		sg.faults["large_inputs_one_malformed"]++
 	}
 	if r.P(40) {
 		// Several tasks first put a text nested deeper than 1024 levels through validation at
